@@ -129,6 +129,10 @@ int main (void) {
         MIR_gen_init (ctx);
         gen_on = 1;
         MIR_gen_set_optimize_level (ctx, level);
+        if (getenv ("MIRRUN_DEBUG") != NULL) { /* development aid: generator dump on stderr */
+          MIR_gen_set_debug_file (ctx, stderr);
+          MIR_gen_set_debug_level (ctx, atoi (getenv ("MIRRUN_DEBUG")));
+        }
         if (strncmp (engine, "gen", 3) == 0) MIR_link (ctx, MIR_set_gen_interface, NULL);
         else if (strncmp (engine, "lazy", 4) == 0) MIR_link (ctx, MIR_set_lazy_gen_interface, NULL);
         else if (strncmp (engine, "bb", 2) == 0) MIR_link (ctx, MIR_set_lazy_bb_gen_interface, NULL);
@@ -157,7 +161,7 @@ int main (void) {
       if (f == NULL) { printf ("F no function %s\n", fname); return 2; }
       nlog = 0;
       if (setjmp (errjmp)) { ctx = NULL; gen_on = 0; free (buf); continue; }
-      alarm (20);
+      alarm (getenv ("MIRRUN_CALL_TIMEOUT") != NULL ? atoi (getenv ("MIRRUN_CALL_TIMEOUT")) : 20);
       if (strcmp (engine, "interp") == 0) {
         MIR_val_t arg, res;
         arg.a = buf;
